@@ -50,15 +50,12 @@ type cfg struct {
 type world struct {
 	t       *testing.T
 	cfg     cfg
-	keys    []*k1.PrivateKey // N member keys and one key outside the cluster (index N)
-	peers   []p2p.Peer
 	host    host.Host
 	bmock   beaconmock.Mock
 	genesis time.Time
 	inner   map[int]proto.Message // value k -> inner message
 	innerB  map[int][]byte        // value k -> deterministic encoding of the inner message
 	hashes  map[int][32]byte      // value k -> hash (the component's own hashing)
-	sigs    map[string][]byte     // signature memo (ECDSA here is deterministic: same key and content, same bytes)
 }
 
 func detKey(label string) *k1.PrivateKey {
@@ -68,19 +65,8 @@ func detKey(label string) *k1.PrivateKey {
 
 func newWorld(t *testing.T, c cfg) *world {
 	t.Helper()
-	w := &world{t: t, cfg: c, inner: map[int]proto.Message{}, innerB: map[int][]byte{}, hashes: map[int][32]byte{},
-		sigs: map[string][]byte{}}
-	for i := 0; i <= c.n; i++ {
-		w.keys = append(w.keys, detKey(fmt.Sprintf("verif-c05-key-%d", i)))
-	}
-	for i := 0; i < c.n; i++ {
-		id, err := p2p.PeerIDFromKey(w.keys[i].PubKey())
-		if err != nil {
-			t.Fatal(err)
-		}
-		w.peers = append(w.peers, p2p.Peer{ID: id, Index: i, Name: p2p.PeerName(id)})
-	}
-	h, err := libp2p.New(libp2p.NoListenAddrs, libp2p.Identity((*libp2pcrypto.Secp256k1PrivateKey)(w.keys[0])))
+	w := &world{t: t, cfg: c, inner: map[int]proto.Message{}, innerB: map[int][]byte{}, hashes: map[int][32]byte{}}
+	h, err := libp2p.New(libp2p.NoListenAddrs, libp2p.Identity((*libp2pcrypto.Secp256k1PrivateKey)(detKey("verif-c05-host"))))
 	if err != nil {
 		t.Fatal(err)
 	}
@@ -165,8 +151,9 @@ func (w *world) content(c map[string]any) *pbv1.QBFTMsg {
 }
 
 // sign returns member by's signature over the content (as signMsg does: hash of the message without signature).
-func (w *world) sign(by int, c map[string]any) ([]byte, error) {
-	q := w.content(c)
+func (r *run) sign(by int, c map[string]any) ([]byte, error) {
+	w := r
+	q := r.w.content(c)
 	wire, err := proto.MarshalOptions{Deterministic: true}.Marshal(q)
 	if err != nil {
 		return nil, err
@@ -192,11 +179,12 @@ func (w *world) sign(by int, c map[string]any) ([]byte, error) {
 }
 
 // part instantiates an abstract QBFTMsg.
-func (w *world) part(q map[string]any) (*pbv1.QBFTMsg, error) {
+func (r *run) part(q map[string]any) (*pbv1.QBFTMsg, error) {
+	w := r
 	if boolean(q["nil"]) {
 		return nil, nil
 	}
-	pb := w.content(q)
+	pb := r.w.content(q)
 	sig := obj(q["sig"])
 	switch drv.Str(sig["kind"]) {
 	case "ok":
@@ -303,7 +291,8 @@ func (w *world) val(v map[string]any) (*anypb.Any, string, [2]int, error) {
 }
 
 // build instantiates an abstract QBFTConsensusMsg; obs is the per-value observation list.
-func (w *world) build(m map[string]any) (*pbv1.QBFTConsensusMsg, []string, [][2]int, error) {
+func (r *run) build(m map[string]any) (*pbv1.QBFTConsensusMsg, []string, [][2]int, error) {
+	w := r
 	main, err := w.part(obj(m["msg"]))
 	if err != nil {
 		return nil, nil, nil, err
@@ -319,7 +308,7 @@ func (w *world) build(m map[string]any) (*pbv1.QBFTConsensusMsg, []string, [][2]
 	obs := []string{}
 	bpos := [][2]int{}
 	for _, v := range list(m["vals"]) {
-		a, o, bp, err := w.val(obj(v))
+		a, o, bp, err := r.w.val(obj(v))
 		if err != nil {
 			return nil, nil, nil, err
 		}
@@ -337,18 +326,35 @@ type node struct {
 	sniffs int
 }
 
+// Keys, peers and Consensus components are per schedule (derived from the schedule index), so that nothing a
+// process-wide cache could remember from one schedule can matter in another: every recorded trace is self-contained.
 type run struct {
 	w      *world
+	keys   []*k1.PrivateKey  // N member keys and one key outside the cluster (index N)
+	peers  []p2p.Peer
+	sigs   map[string][]byte // signature memo (ECDSA here is deterministic: same key and content, same bytes)
 	clock  *clockwork.FakeClock
 	ctx    context.Context
 	cancel context.CancelFunc
 	nodes  map[int]*node
 }
 
-func (w *world) newRun() *run {
+func (w *world) newRun(sid int) *run {
 	ctx, cancel := context.WithCancel(context.Background())
-	return &run{w: w, ctx: ctx, cancel: cancel, nodes: map[int]*node{},
+	r := &run{w: w, ctx: ctx, cancel: cancel, nodes: map[int]*node{}, sigs: map[string][]byte{},
 		clock: clockwork.NewFakeClockAt(w.genesis.Add(time.Duration(w.cfg.t0) * time.Second))}
+	for i := 0; i <= w.cfg.n; i++ {
+		r.keys = append(r.keys, detKey(fmt.Sprintf("verif-c05-key-%d-%d", sid, i)))
+	}
+	for i := 0; i < w.cfg.n; i++ {
+		id, err := p2p.PeerIDFromKey(r.keys[i].PubKey())
+		if err != nil {
+			w.t.Fatal(err)
+		}
+		r.peers = append(r.peers, p2p.Peer{ID: id, Index: i, Name: p2p.PeerName(id)})
+	}
+
+	return r
 }
 
 func (r *run) node(id int) (*node, error) {
@@ -366,7 +372,7 @@ func (r *run) node(id int) (*node, error) {
 		return nil, err
 	}
 	n := &node{}
-	n.c, err = cqbft.NewConsensus(r.ctx, w.bmock, w.host, new(p2p.Sender), w.peers, w.keys[0], deadliner, gater,
+	n.c, err = cqbft.NewConsensus(r.ctx, w.bmock, w.host, new(p2p.Sender), r.peers, r.keys[0], deadliner, gater,
 		func(*pbv1.SniffedConsensusInstance) { n.sniffs++ }, false)
 	if err != nil {
 		return nil, err
@@ -381,10 +387,10 @@ type outcome struct {
 }
 
 // call runs the handler synchronously; ok=false means it did not return (hang).
-func call(ctx context.Context, n *node, w *world, req proto.Message) (outcome, bool) {
+func call(ctx context.Context, n *node, r *run, req proto.Message) (outcome, bool) {
 	done := make(chan outcome, 1)
 	go func() {
-		_, _, err := n.c.VerifHandle(ctx, w.peers[1].ID, req)
+		_, _, err := n.c.VerifHandle(ctx, r.peers[1].ID, req)
 		done <- outcome{err: err}
 	}()
 	select {
@@ -463,7 +469,7 @@ func TestExec(t *testing.T) {
 
 // runSchedule executes the steps on fresh Consensus components; it returns true if the executor must stop.
 func runSchedule(tr *drv.Tracer, w *world, sid int, steps []drv.Step) bool {
-	r := w.newRun()
+	r := w.newRun(sid)
 	defer r.cancel()
 	anomaly := func(what string, st drv.Step) bool {
 		tr.Emit(drv.Step{"ev": "Anomaly", "what": what, "sid": sid, "step": st})
@@ -493,7 +499,7 @@ func runSchedule(tr *drv.Tracer, w *world, sid int, steps []drv.Step) bool {
 					req = &pbv1.QBFTMsg{Type: 1, Round: 1}
 				}
 			} else {
-				pb, o, bp, err := w.build(m)
+				pb, o, bp, err := r.build(m)
 				if err != nil {
 					return anomaly(err.Error(), st)
 				}
@@ -520,7 +526,7 @@ func runSchedule(tr *drv.Tracer, w *world, sid int, steps []drv.Step) bool {
 				ctx, cancel = context.WithTimeout(r.ctx, 300*time.Millisecond)
 			}
 			tb, ib, sn := n.c.VerifRecvBufferTotal(), n.c.VerifInstanceCount(), n.sniffs
-			o, ok := call(ctx, n, w, req)
+			o, ok := call(ctx, n, r, req)
 			cancel()
 			if !ok {
 				tr.Emit(drv.Step{"ev": "Hang", "sid": sid, "step": st})
@@ -547,7 +553,7 @@ func runSchedule(tr *drv.Tracer, w *world, sid int, steps []drv.Step) bool {
 			ev := drv.Step{"ev": "Raw", "c": num(st, "c"), "parsed": false, "err": true, "tb": 0, "ta": 0, "ib": 0, "ia": 0}
 			if err := proto.Unmarshal(b, dec); err == nil {
 				tb, ib := n.c.VerifRecvBufferTotal(), n.c.VerifInstanceCount()
-				o, ok := call(r.ctx, n, w, dec)
+				o, ok := call(r.ctx, n, r, dec)
 				if !ok {
 					tr.Emit(drv.Step{"ev": "Hang", "sid": sid, "step": st})
 					return true
